@@ -154,6 +154,50 @@ CLAIMS = {
                 'over histories; kernel SCM_RIGHTS behaviour.',
         'design': 'DESIGN.md section 3, C15',
     },
+    'C01': {
+        'technique': 'static analysis: must-pass-through of header load (untrusted mode) and body validation before '
+                     'queuing, verdict-use scan, table checks of the header-field table / per-field validators / '
+                     'mandatory fields against the specification, partition comparison of the ten per-type switch '
+                     'statements, sibling agreement of validator and byte-swapper container walks, limit constants '
+                     'and their guarding comparisons',
+        'text': 'Decides that the loader queues a message only after _dbus_header_load (untrusted) and the body '
+                'validator returned DBUS_VALID, that the header loader returns TRUE for untrusted data only after all '
+                'its checks, that no DBusValidity is dropped, that field table / per-field cases / mandatory fields '
+                'equal the specification, that every type code has a non-asserting case of the right wire size in all '
+                'ten switches, that variants hold one value and arrays are aligned when empty in both walkers, and that '
+                'limits have the specification\'s values and guard the fixed-array fast path.',
+        'note': NOT_DECIDED_COMMON + 'Not decided: accepted <=> spec-valid for every byte string; equality with an '
+                'independent decoder; cursor bounds (C01.7 withdrawn: no sound relational domain in reach); signature '
+                'bracket nesting (counter automaton).',
+        'design': 'DESIGN.md section 3, C01',
+    },
+    'C02': {
+        'technique': 'static analysis: partition comparison of per-type switch statements against the specification '
+                     'table, must-pass-through of dbus_message_lock before bytes leave, locked-precondition dominance '
+                     'in every public mutator, open/close pairing of the builder\'s signature bookkeeping',
+        'text': 'Decides that writer, reader, skipper, validator and byte-swapper agree on every type code, that length '
+                'words are written and the message locked before marshal copies or the connection can write, that '
+                'every public mutator of header or body tests !locked first, and that the signature being built is '
+                'closed or abandoned on every exit.',
+        'note': NOT_DECIDED_COMMON + 'Not decided: round-trip equality of values, byte-identical re-serialisation, '
+                'value preservation under byte-order conversion / copy.',
+        'design': 'DESIGN.md section 3, C02',
+    },
+    'C14': {
+        'technique': 'static analysis: bottom-up effect summaries (state changes with no cancel hook) and '
+                     'irrevocable-last typestate for the request handlers, ownership typestate of messages / '
+                     'transactions / match rules / DBusStrings on every exit, open/close pairing, restore-on-failure '
+                     'idiom check, preallocation dominance',
+        'text': 'Decides, for Hello / RequestName / ReleaseName / AddMatch / RemoveMatch, that no path changes state '
+                'the transaction cannot undo and then reports failure; that no bus function leaks a message, '
+                'transaction, match rule or DBusString on any exit; that the builder\'s signature bookkeeping and the '
+                'orig_len idiom restore on failure; that the OOM reply is preallocated first. Five genuine defects '
+                'of the unchanged tree are listed as known findings (replayed in findings/R1..R6, R10).',
+        'note': NOT_DECIDED_COMMON + 'Not decided: equality of state snapshots / leak totals at run time; allocation '
+                'failures inside libc or expat; handlers outside the property\'s list. Exemptions are one symbol each '
+                'with a reason (rules/C14.py:EXEMPT).',
+        'design': 'DESIGN.md section 3, C14',
+    },
 }
 
 NOT_APPLICABLE = {
